@@ -115,6 +115,7 @@ class World:
             sub.spec = True
             sub.old_env, sub.old_heap, sub.old_globals = it.old_env, it.old_heap, it.old_globals
             sub.old_alloc = getattr(it, 'old_alloc', None)
+            sub.old_epoch = getattr(it, 'old_epoch', 0)
             sub.result, sub.exc = it.result, it.exc
             return sub.eval_text(text)
         self.spec_funcs[name] = expand
